@@ -102,8 +102,17 @@ def panic_expected(case, r):
     return False
 
 
+def input_size(case):
+    """bytes of input the case hands to the crate (hex text / 2; `seibig pre n post` builds n more bytes in the harness)"""
+    p = case.lstrip("!").split()
+    n = max(1, len(case) // 2)
+    if p and p[0] == "seibig":
+        n += int(p[2])
+    return n
+
+
 def extra_check(r):
-    n = max(1, len(r["case"]) // 2)
+    n = input_size(r["case"])
     if r.get("alloc_max", 0) > 300 * n + (1 << 20):
         return ("value", "largest single heap request %d bytes for an input of ~%d bytes" % (r["alloc_max"], n))
     # wall-clock is noisy on a loaded machine: only inputs >= 4 KiB are held to a (generous) linear budget
